@@ -63,6 +63,8 @@ def generate(tier, rng):
     cases.append(_case(X.gen_merged(rng, k=4, ncs=[5, 5, 4, 3], nspk=3)))                      # 17 channels > 12
     cases.append(_case(X.gen_merged(rng, k=3, ncs=[6, 6, 6], nspk=3, nt=2)))                   # 18 channels
     cases.append(_case(X.gen_merged(rng, k=1, ncs=[4])))
+    cases.append(_case(X.gen_merged(rng, k=3, ncs=[6, 6, 5], geometry='long', nspk=3, nt=2)))     # long shanks side by side
+    cases.append(_case(X.gen_merged(rng, k=2, ncs=[6, 6], geometry='long')))
     cases.append(_case(X.gen_merged(rng, k=2, ncs=[3, 4], mfeatures=True, curated=False)))
     cases.append(_case(X.gen_merged(rng, k=3, ncs=[3, 2, 4], mfeatures=True, curated=True)))
     # (c) single directories: one boundary case per clause / constant
@@ -77,7 +79,7 @@ def generate(tier, rng):
               dict(table='like3', nc=6, cm_dtype='uint32'), dict(table='like2', nc=5, label='probe00', factor=2.5)]:
         cases.append(_case(X.gen_single(rng, **o)))
     # ---- axis products ------------------------------------------------------------------------------------
-    n_axis, n_single, n_merged = {'quick': (1, 36, 38), 'thorough': (6, 600, 600), 'search': (2, 150, 150)}[tier]
+    n_axis, n_single, n_merged = {'quick': (2, 80, 80), 'thorough': (10, 2500, 2500), 'search': (2, 150, 150)}[tier]
     for _ in range(n_axis):
         for k in (1, 2, 3, 4):
             for dt in ('int32', 'uint32'):
